@@ -523,6 +523,9 @@ func returnsOf(fn *ssa.Function) []*ssa.Return {
 		if b == fn.Recover {
 			continue // only reached after a recovered panic
 		}
+		if theWorld != nil && !theWorld.liveBlock(b) {
+			continue // reachable only over branch edges that are never taken
+		}
 		if r, ok := b.Instrs[len(b.Instrs)-1].(*ssa.Return); ok {
 			out = append(out, r)
 		}
